@@ -39,7 +39,10 @@ Inductive case :=
 | CBackup (cmpk : N) (ops : list op) (sn : N) (pivots : list pivot) (nshards : nat)
           (files : list (list (N * N))) (cks : list N) (loaded : list (list N))
 (** a history on an instance populated by LoadFromDisk with [items] *)
-| CRestored (cmpk : N) (items : list (list N)) (ops : list op) (obs : list out).
+| CRestored (cmpk : N) (items : list (list N)) (ops : list op) (obs : list out)
+(** exhaustive small-scope check of the three derived comparators of nitro.go:99-129:
+    which = 0 insCmp, 1 iterCmp, 2 existCmp, on items (bytes, bornSn, deadSn); obs = sign *)
+| CCmp (cmpk which : N) (a : list N) (aborn adead : N) (b : list N) (bborn bdead : N) (obs : Z).
 
 Definition optb {A} (eqb : A -> A -> bool) (a b : option A) : bool :=
   match a, b with Some x, Some y => eqb x y | None, None => true | _, _ => false end.
@@ -92,4 +95,12 @@ Definition check (c : case) : bool :=
     && bytes_list_eqb (concat sh) loaded
     && match load_data crc32 (stored_image crc32 sh) with LOk l => bytes_list_eqb l loaded | LErr => false end
   | CRestored k items ops obs => list_eqb out_eqb (snd (run (cmp_of k) (restored_db items) ops)) obs
+  | CCmp k which a ab ad b bb bd obs =>
+    let kc := cmp_of k in
+    let r := match which with
+             | 0 => comparison_code (ins_cmp kc (mkVer a ab ad 0) b bb)
+             | 1 => comparison_code (kc a b)
+             | _ => if (ad =? 0) && (bd =? 0) then comparison_code (kc a b) else 1%Z
+             end in
+    Z.eqb r obs
   end.
